@@ -109,6 +109,7 @@ func (x *Run) verifySweep(sw *Sweep) []*State {
 	}
 	if key := x.heldLockKey(sw.Target, args); key != "" {
 		st.held[key] = 1 // declared: callers hold the receiver's mutex
+		st.ghost["assumedheld:"+key] = "1"
 	}
 	outs := x.runFrame(fr, args, bindings, st)
 	var finals []*State
